@@ -10,10 +10,11 @@
 From Coq Require Import ZArith List Bool Lia.
 From RV.Model Require Import Base Word.
 From RV.Model Require Limbs Add Mul UDiv Shift Bits Conv Bytes BaseConv Fmt Float Redc Modular
-  GcdMatrix Gcd Div DivRecip DivKnuth Cmp Facade Gen History Opaque Macro CodecA CodecB CodecC.
+  GcdMatrix Gcd Div DivRecip DivKnuth Cmp Facade Gen History Opaque Macro CodecA CodecB CodecC
+  Pow Log Root.
 From RV.Proofs Require Import BaseFacts.
-From RV.Proofs Require PfConv PfBits PfMul PfDiv PfGcd PfGcdMatrix PfC12Closed PfC10 PfC10Closed PfRedc PfC11.
-From RV.Run Require RunC10.
+From RV.Proofs Require PfConv PfBits PfMul PfDiv PfGcd PfGcdMatrix PfC12Closed PfC10 PfC10Closed PfRedc PfC11 PfPow PfRoot PfC13Closed.
+From RV.Run Require RunC10 RunC13.
 
 Local Open Scope Z_scope.
 
@@ -657,3 +658,136 @@ Lemma agree_codecc_hex_alt : CodecC.hex_alt = CodecA.spec_alt_x.
 Proof. reflexivity. Qed.
 
 (* ====================================================================================== *)
+(* PART 3 — the local copies of Model/Pow.v, Log.v, Root.v (C13)                          *)
+(* ====================================================================================== *)
+
+(* ---------- cmp.rs ---------- *)
+Lemma agree_pow_is_zero bits a : Pow.is_zero bits a = UDiv.is_zero bits a.
+Proof. reflexivity. Qed.
+Lemma agree_pow_ueq a b : Pow.ueq a b = Cmp.ueq a b.
+Proof. reflexivity. Qed.
+Lemma agree_pow_ule a b : Pow.ule a b = Cmp.ule a b.
+Proof. unfold Pow.ule, Cmp.ule, Cmp.partial_cmp, Cmp.ucmp. destruct (Add.limbs_cmp a b); reflexivity. Qed.
+Lemma agree_root_umin a b : Root.umin a b = Cmp.umin a b.
+Proof. unfold Root.umin, Pow.ule, Cmp.umin, Cmp.ucmp. destruct (Add.limbs_cmp a b); reflexivity. Qed.
+
+(* ---------- mul.rs ---------- *)
+Lemma agree_pow_overflowing_mul bits a b : Pow.overflowing_mul bits a b = Mul.overflowing_mul bits a b.
+Proof.
+  unfold Pow.overflowing_mul, Mul.overflowing_mul, Mul.apply_mask.
+  destruct (Limbs.addmul (uZERO bits) a b); reflexivity.
+Qed.
+Lemma agree_pow_checked_mul bits a b : Pow.checked_mul bits a b = Mul.checked_mul bits a b.
+Proof.
+  unfold Pow.checked_mul, Mul.checked_mul, Add.checked_of. rewrite agree_pow_overflowing_mul.
+  destruct (Mul.overflowing_mul bits a b) as [v [|]]; reflexivity.
+Qed.
+Lemma agree_pow_wrapping_mul bits a b : Pow.wrapping_mul bits a b = Mul.wrapping_mul bits a b.
+Proof. reflexivity. Qed.
+
+(* ---------- div.rs ---------- *)
+Lemma agree_pow_div_rem a b : Pow.div_rem a b = UDiv.div_rem a b.
+Proof. reflexivity. Qed.
+Lemma agree_pow_wrapping_div a b : Pow.wrapping_div a b = UDiv.wrapping_div a b.
+Proof. reflexivity. Qed.
+
+(* ---------- from.rs conversions used by log.rs / root.rs ---------- *)
+Lemma agree_log_i32 : Log.i32 = Mul.prim_i32.
+Proof. reflexivity. Qed.
+Lemma agree_log_usize : Log.usize = GcdMatrix.u64p.
+Proof. reflexivity. Qed.
+(* Self::from(2) through the i32 literal fallback: the same definition as in Mul.v *)
+Lemma agree_log_from_i32 bits v : Log.from_i32 bits v = Mul.from_i32 bits v.
+Proof. reflexivity. Qed.
+(* Self::from(x : usize) = Self::from(x : u64) *)
+Lemma agree_log_from_usize bits v :
+  0 <= v < B -> Log.from_usize bits v = GcdMatrix.uint_from_u64 bits v.
+Proof.
+  intros Hv. unfold Log.from_usize, GcdMatrix.uint_from_u64, Conv.try_from_prim, Log.usize.
+  cbn [Conv.psigned Conv.pw]. unfold Conv.try_from_unsigned. cbn [Z.eqb].
+  rewrite Z.mod_small by exact Hv. reflexivity.
+Qed.
+(* result.to::<usize>() = try_into::<u64>().unwrap() *)
+Lemma agree_log_to_usize bits a : Log.to_usize bits a = GcdMatrix.to_u64 bits a.
+Proof. reflexivity. Qed.
+Lemma agree_log_expect_opt (o : outcome (option (list Z))) : Log.expect_opt o = Facade.unwrap_opt o.
+Proof. reflexivity. Qed.
+
+(* ====================================================================================== *)
+(* PART 4 — the two specification stand-ins left in Model/History.v (opaque_ops = [WrPow;  *)
+(* Root]) against the C13 models Pow.v / Root.v.  Differs by design (integer-level         *)
+(* specification vs limb-level code); on canonical operands the opcode computes exactly    *)
+(* what the real model computes.                                                          *)
+(* ====================================================================================== *)
+
+Lemma wr_lift bits r v : canon bits r -> eval r = v -> History.wr r = History.lift bits (Opaque.zw v).
+Proof.
+  intros Hc He. unfold History.wr, History.lift, Opaque.zw. cbn [obind fst snd option_map].
+  rewrite <- (uint_of_unique bits r v Hc He). reflexivity.
+Qed.
+
+Lemma pow_mod2_pos_spec a p k : 0 <= k -> Opaque.pow_mod2_pos a p k = a ^ Zpos p mod 2 ^ k.
+Proof.
+  intros Hk. assert (HM : 0 < 2 ^ k) by (apply Z.pow_pos_nonneg; lia).
+  induction p as [p IH|p IH|]; cbn [Opaque.pow_mod2_pos]; rewrite !modp2_spec by exact Hk.
+  - rewrite IH. rewrite <- Z.mul_mod by lia. rewrite Z.mul_mod_idemp_l by lia. f_equal.
+    rewrite Pos2Z.inj_xI. replace (2 * Z.pos p + 1) with (Z.pos p + Z.pos p + 1) by lia.
+    rewrite !Z.pow_add_r, Z.pow_1_r by lia. reflexivity.
+  - rewrite IH. rewrite <- Z.mul_mod by lia. f_equal.
+    rewrite Pos2Z.inj_xO. replace (2 * Z.pos p) with (Z.pos p + Z.pos p) by lia.
+    now rewrite Z.pow_add_r by lia.
+  - now rewrite Z.pow_1_r.
+Qed.
+Lemma pow_mod2_spec a e k : 0 <= k -> 0 <= e -> Opaque.pow_mod2 a e k = a ^ e mod 2 ^ k.
+Proof.
+  intros Hk He. destruct e as [|p|p]; cbn [Opaque.pow_mod2]; [|now apply pow_mod2_pos_spec|lia].
+  rewrite modp2_spec by exact Hk. now rewrite Z.pow_0_r.
+Qed.
+
+Lemma agree_opaque_wrapping_pow bits a e c imm :
+  0 <= bits -> canon bits a -> canon bits e ->
+  History.sem History.WrPow bits a e c imm = (do r <- Pow.wrapping_pow bits a e ; History.wr r).
+Proof.
+  intros Hb Ca Ce. cbn [History.sem]. unfold Opaque.z_wrapping_pow.
+  destruct (Z.eq_dec bits 0) as [->|Hne].
+  - apply canon_zero_width in Ca. subst a. reflexivity.
+  - destruct (PfPow.wrapping_pow_spec bits a e ltac:(lia) Ca Ce) as (r & -> & Cr & Er).
+    cbn [obind]. symmetry. apply wr_lift; [exact Cr|].
+    pose proof (canon_range bits e Hb Ce). rewrite pow_mod2_spec by lia. exact Er.
+Qed.
+
+(* the bit-by-bit integer root of Opaque.v and of the C13 specification are the same function *)
+Lemma agree_opaque_iroot_loop x d : 0 <= x -> 0 <= d -> forall k r, 0 <= r ->
+  Opaque.iroot_loop k x d r = RunC13.iroot_loop k d x r.
+Proof.
+  intros Hx Hd. induction k as [|k IH]; intros r Hr; cbn [Opaque.iroot_loop RunC13.iroot_loop]; [reflexivity|].
+  assert (Hc : 0 <= r + 2 ^ Z.of_nat k) by (pose proof (Z.pow_nonneg 2 (Z.of_nat k)); lia).
+  rewrite PfPow.pow_le_spec by lia.
+  apply IH. destruct (_ <=? x); lia.
+Qed.
+Lemma agree_opaque_iroot x d : 0 <= x -> 0 <= d -> Opaque.iroot x d = RunC13.iroot d x.
+Proof. intros Hx Hd. apply agree_opaque_iroot_loop; lia. Qed.
+
+(* Root: for every initial guess that meets the checked predicate of C13 (RunC13.root_guess_ok;
+   the guess comes from libm and is an input of Model/Root.v) *)
+Lemma agree_opaque_root bits a b c imm est :
+  0 <= bits -> canon bits a -> 0 <= History.imm1 imm < B ->
+  RunC13.root_guess_ok bits (eval a) (History.imm1 imm) est = true ->
+  History.sem History.Root bits a b c imm =
+  (do r <- Root.root bits a (History.imm1 imm) (RunC13.est_of est) ; History.wr r).
+Proof.
+  intros Hb Ca Hd Hg. cbn [History.sem]. set (d := History.imm1 imm) in *.
+  pose proof (PfRoot.root_spec PfC13Closed.DivKernelOK_holds bits a d est Hb Ca Hd Hg) as H.
+  unfold Opaque.z_root. destruct (Z.eqb_spec d 0) as [E0|E0].
+  - subst d. rewrite E0 in *. cbn [Z.leb Z.compare] in H. rewrite H. reflexivity.
+  - destruct (Z.leb_spec d 0); [lia|]. destruct H as (y & -> & Cy & Fy). cbn [obind].
+    symmetry. apply wr_lift; [exact Cy|].
+    pose proof (canon_range bits a Hb Ca) as Ra.
+    apply (PfRoot.floor_root_unique (eval a) d); [lia | exact Fy |].
+    destruct (Z.eqb_spec (eval a) 0) as [Ea|Ea].
+    + rewrite Ea. unfold PfRoot.floor_root. rewrite Z.pow_0_l, Z.pow_1_l by lia. lia.
+    + destruct (Z.leb_spec bits d).
+      * unfold PfRoot.floor_root. rewrite Z.pow_1_l by lia. change (1 + 1) with 2.
+        assert (2 ^ bits <= 2 ^ d) by (apply Z.pow_le_mono_r; lia). lia.
+      * rewrite agree_opaque_iroot by lia. apply PfRoot.iroot_spec; lia.
+Qed.
